@@ -51,6 +51,18 @@ func c03One(ctx *core.Ctx, r *ref.Rendered, lc *layoutCase) {
 }
 
 func c03Run(ctx *core.Ctx) {
+	// size sweeps first (cheap, carry their own guard): canonical layout and every uniform style
+	for i, tm := range gen.SweepModelsDSL(sweepSizes(ctx)) {
+		if !ctx.Mine(1<<26 + i) {
+			continue
+		}
+		if ctx.Expired() {
+			ctx.Cap("wall-clock cap in the size sweeps")
+			break
+		}
+		ctx.Eval(1)
+		forLayouts(ctx, tm.Tag, tm.M, 0, 0, func(r *ref.Rendered, lc *layoutCase) { c03One(ctx, r, lc); ctx.Flag("c03:sweeps") })
+	}
 	models := gen.DSLModels(ctx.Thorough())
 	for i, tm := range models {
 		if !ctx.Mine(i) {
@@ -91,7 +103,7 @@ func modelSize(m *ref.Model) int {
 func init() {
 	core.Register(&core.Check{
 		ID: "C03",
-		Rule: "models from the generator families (all DSL-conform rewrite shapes up to 3/4 leaves, every identifier class in every grammatical position, " +
+		Rule: "size sweeps (one dimension of a model - operands of a union/intersection, relations of a type, types, conditions, parameters of a condition cycling through all 24 types, entries of a restriction list - scaled through 11 (quick) / 26 (thorough) sizes between 4 and 128 around the thresholds sorting and buffering code commonly has, contents in scrambled order; names of 64..1100 characters; one-line condition expressions of 300..4200 characters; declarations before and after the large part) under the canonical layout and every uniform style; models from the generator families (all DSL-conform rewrite shapes up to 3/4 leaves, every identifier class in every grammatical position, " +
 			"all restriction lists up to length 2/3, all 24 parameter types, expression alphabet, unsorted multi-type models, module files) x renderings: " +
 			"canonical layout with every single deviation (pairs on tiny models), every uniform style (one alternative at all sites of a kind; thorough: plus every single deviation on top). " +
 			"Each text is parsed by TransformDSLToProto and TransformModularDSLToProto and compared with the model that was written. " +
@@ -103,6 +115,9 @@ func init() {
 		Technique: "bounded exhaustive enumeration of models x layouts (deviation-bounded DFS over layout choice points) against an independent renderer/AST reference",
 		Run:       c03Run,
 		Finish: func(r *core.Result) error {
+			if !r.Flags["c03:sweeps"] {
+				return fmt.Errorf("C03: size sweeps never exercised")
+			}
 			if !r.Flags["module-file"] || !r.Flags["model-file"] {
 				return fmt.Errorf("C03: model and module files must both be exercised")
 			}
